@@ -642,3 +642,118 @@ have hL := int_sum_Ico_consecutive_gen (fun j => y (if j ≥ N - c then j - (N -
 have hR := int_sum_Ico_consecutive_gen (fun n => y n * W ((n - c) * (k - c))) (by omega : (0:ℤ) ≤ c) (by omega : c ≤ N)
 rw [← hL, ← hR, h1, h2, add_comm]
 """)
+
+
+# ---- discrete Fourier sum of the Hermitian extension of a half-axis function ---------------------------------------------------
+lemma("dft_hermitian",
+      types={"N": "int", "M": "int", "y": "carr1", "yy": "carr1", "W": "carr1", "Y": "carr1"},
+      hyps=[("hN", "N >= 1"), ("hM", "M == 2*N"),
+            ("hW", "forall((a, q), (ints, ints), W[a + M*q] == W[a])"),
+            ("hyy", "forall(j, range(0, M), yy[j] == ite(j < N, y[j], ite(j == N, 0, conj(y[M - j]))))"),
+            ("hY", "forall(k, range(0, M), Y[k] == Sum(j, range(0, M), yy[j]*W[j*ite(k >= N, k - N, k - N + M)]))")],
+      concl="forall(k, range(0, M), Y[k] == Sum(n, range(0, N), y[n]*W[n*(k - N)]) "
+            "+ Sum(n, range(1, N), conj(y[n])*W[(0 - n)*(k - N)]))",
+      proof="""
+intro k hk0 hkM
+rw [hY k hk0 hkM]
+obtain ⟨e, he⟩ : ∃ e : ℤ, (if k ≥ N then k - N else k - N + M) = (k - N) + M * e := by
+  by_cases h : k ≥ N
+  · exact ⟨0, by simp [h]⟩
+  · exact ⟨1, by simp [h]⟩
+rw [he]
+have hWk : ∀ n : ℤ, W (n * ((k - N) + M * e)) = W (n * (k - N)) := by
+  intro n
+  have : n * ((k - N) + M * e) = n * (k - N) + M * (n * e) := by ring
+  rw [this, hW]
+have hA := int_sum_Ico_consecutive_gen (fun j => yy j * W (j * ((k - N) + M * e))) (by omega : (0:ℤ) ≤ N) (by omega : N ≤ M)
+have hB := int_sum_Ico_consecutive_gen (fun j => yy j * W (j * ((k - N) + M * e))) (by omega : N ≤ N + 1) (by omega : N + 1 ≤ M)
+rw [← hA, ← hB]
+have h1 : ∑ j ∈ Finset.Ico (0:ℤ) N, yy j * W (j * ((k - N) + M * e)) = ∑ n ∈ Finset.Ico (0:ℤ) N, y n * W (n * (k - N)) := by
+  apply Finset.sum_congr rfl
+  intro j hj
+  have hj' := Finset.mem_Ico.mp hj
+  rw [hyy j hj'.1 (by omega), hWk j]
+  simp [hj'.2]
+have h2 : ∑ j ∈ Finset.Ico N (N + 1), yy j * W (j * ((k - N) + M * e)) = 0 := by
+  apply Finset.sum_eq_zero
+  intro j hj
+  have hj' := Finset.mem_Ico.mp hj
+  have hjN : j = N := by omega
+  rw [hyy j (by omega) (by omega)]
+  simp [hjN]
+have h3 : ∑ j ∈ Finset.Ico (N + 1) M, yy j * W (j * ((k - N) + M * e))
+    = ∑ n ∈ Finset.Ico (1:ℤ) N, (starRingEnd ℂ) (y n) * W ((0 - n) * (k - N)) := by
+  apply Finset.sum_nbij' (fun j => M - j) (fun n => M - n)
+  · intro j hj
+    have hj' := Finset.mem_Ico.mp hj
+    exact Finset.mem_Ico.mpr ⟨by omega, by omega⟩
+  · intro n hn
+    have hn' := Finset.mem_Ico.mp hn
+    exact Finset.mem_Ico.mpr ⟨by omega, by omega⟩
+  · intro j _
+    ring
+  · intro n _
+    ring
+  · intro j hj
+    have hj' := Finset.mem_Ico.mp hj
+    rw [hyy j (by omega) hj'.2, hWk j]
+    have c1 : ¬ (j < N) := by omega
+    have c2 : ¬ (j = N) := by omega
+    simp only [c1, c2, if_false]
+    have e4 : j * (k - N) = (0 - (M - j)) * (k - N) + M * (k - N) := by ring
+    rw [e4, hW]
+rw [h1, h2, h3]
+ring
+""")
+
+
+# ---- discrete Fourier inversion on a centred grid (from multiplicativity and orthogonality of the phase factors) ----------------
+lemma("dft_inversion",
+      types={"N": "int", "c": "int", "s1": "real", "s2": "real", "y": "carr1", "W": "carr1", "F": "carr1", "g": "carr1"},
+      hyps=[("hN", "N >= 1"),
+            ("hWmul", "forall((a, b), (ints, ints), W[a + b] == W[a]*W[b])"),
+            ("hWorth", "forall(d, ints, Sum(k, range(0, N), W[(k - c)*d]) == ite(d % N == 0, N, 0))"),
+            ("hF", "forall(k, range(0, N), F[k] == Sum(n, range(0, N), y[n]*W[(n - c)*(k - c)])*s1)"),
+            ("hg", "forall(m, range(0, N), g[m] == Sum(k, range(0, N), F[k]*W[0 - (k - c)*(m - c)])*s2)")],
+      concl="forall(m, range(0, N), g[m] == N*y[m]*s1*s2)",
+      proof="""
+intro m hm0 hmN
+rw [hg m hm0 hmN]
+have step1 : ∀ k ∈ Finset.Ico (0:ℤ) N, F k * W (0 - (k - c) * (m - c)) = (∑ n ∈ Finset.Ico (0:ℤ) N, y n * W ((k - c) * (n - m))) * ((s1:ℝ):ℂ) := by
+  intro k hk
+  have hk' := Finset.mem_Ico.mp hk
+  rw [hF k hk'.1 hk'.2, mul_right_comm, Finset.sum_mul]
+  congr 1
+  apply Finset.sum_congr rfl
+  intro n _
+  rw [mul_assoc, ← hWmul]
+  congr 2
+  ring
+rw [Finset.sum_congr rfl step1, ← Finset.sum_mul, Finset.sum_comm]
+have step2 : ∀ n ∈ Finset.Ico (0:ℤ) N, ∑ k ∈ Finset.Ico (0:ℤ) N, y n * W ((k - c) * (n - m))
+    = y n * (if (n - m) % N = 0 then (((N:ℤ):ℝ):ℂ) else 0) := by
+  intro n _
+  rw [← Finset.mul_sum, hWorth (n - m)]
+rw [Finset.sum_congr rfl step2]
+have step3 : ∀ n ∈ Finset.Ico (0:ℤ) N, y n * (if (n - m) % N = 0 then (((N:ℤ):ℝ):ℂ) else 0) = if n = m then (((N:ℤ):ℝ):ℂ) * y m else 0 := by
+  intro n hn
+  have hn' := Finset.mem_Ico.mp hn
+  by_cases h : n = m
+  · subst h
+    simp
+    ring
+  · have hne : ¬ ((n - m) % N = 0) := by
+      intro h0
+      obtain ⟨q, hq⟩ := Int.dvd_of_emod_eq_zero h0
+      rcases lt_trichotomy q 0 with hq0 | hq0 | hq0
+      · have : N * q ≤ -N := by nlinarith
+        omega
+      · subst hq0
+        simp at hq
+        omega
+      · have : N * q ≥ N := by nlinarith
+        omega
+    simp [h, hne]
+rw [Finset.sum_congr rfl step3, Finset.sum_ite_eq' (Finset.Ico (0:ℤ) N) m]
+simp [Finset.mem_Ico, hm0, hmN]
+""")
